@@ -166,7 +166,7 @@ class Obligation(object):
         self.known = None         # known finding text
 
     def merge(self, status):
-        order = {None: 0, "discharged": 1, "undecided": 2, "violated": 3}
+        order = {None: 0, "discharged": 1, "known": 2, "undecided": 3, "violated": 4}
         if order[status] > order[self.status]:
             self.status = status
 
@@ -298,7 +298,7 @@ class Registry(object):
         for kf in self._known:
             if kf["obligation"] == o.id and kf.get("status") == "known":
                 o.known = kf["text"]
-                if o.status is None:
+                if o.status in (None, "discharged"):
                     o.status = "known"
                 o.detail = info
                 return
@@ -313,6 +313,43 @@ class Registry(object):
                        "reproduced_on_real_code": reproduced, "info": info},
                       fd, indent=1, default=str)
         o.replay = os.path.relpath(path, VERIF)
+
+    # -- parallel sub-registries ---------------------------------------------
+    def export(self):
+        return {"obligations": self.obligations, "functions": self.functions,
+                "assumptions": self.assumptions, "trusted": self.trusted,
+                "notes": self.notes, "samples": self.samples, "errors": self.errors,
+                "extra": self.extra, "solver_seconds": self.solver_seconds}
+
+    def absorb(self, exp):
+        order = {None: 0, "discharged": 1, "known": 2, "undecided": 3, "violated": 4}
+        for oid, o in exp["obligations"].items():
+            mine = self.obligations.get(oid)
+            if mine is None:
+                self.obligations[oid] = o
+                continue
+            mine.instances += o.instances
+            mine.seconds += o.seconds
+            mine.backends |= o.backends
+            if order[o.status] > order[mine.status]:
+                mine.status = o.status
+                mine.detail = o.detail
+                mine.replay = o.replay
+                mine.known = o.known
+                if hasattr(o, "reproduced"):
+                    mine.reproduced = o.reproduced
+        self.functions.update(exp["functions"])
+        for a in exp["assumptions"]:
+            self.assume(a)
+        for a in exp["trusted"]:
+            self.trust(a)
+        self.notes.extend(n for n in exp["notes"] if n not in self.notes)
+        for s in exp["samples"]:
+            if len(self.samples) < 6:
+                self.samples.append(s)
+        self.errors.extend(exp["errors"])
+        self.extra.update(exp["extra"])
+        self.solver_seconds += exp["solver_seconds"]
 
     # -- finishing ---------------------------------------------------------
     def finish(self, level="proof", checker_cmd=None, extra_cov=None):
@@ -375,9 +412,12 @@ class Registry(object):
             print("CHECKER-ERROR: %s" % e)
         wall = time.time() - self.t0
         n_dis = len([o for o in proof if o.status == "discharged"])
+        n_known = len([o for o in proof if o.status == "known"])
         cov = {
-            "obligations": len(proof),
+            # proof obligations outside the regions of recorded known findings
+            "obligations": len(proof) - n_known,
             "discharged": n_dis,
+            "known_finding_obligations": n_known,
             "checker_cmd": checker_cmd or ("./check %s --tier %s" % (self.prop, self.tier)),
             "trusted_base": self.trusted or ["z3 4.x/5.x SMT solver", "cvc5"],
             "samples": self.samples[:6] or [{"note": "no sample recorded"}],
@@ -474,3 +514,31 @@ def load_baseline():
         return json.load(open(path))
     except Exception:
         return {}
+
+
+def _pool_worker(args):
+    fn, job, prop, tier = args
+    sub = Registry(prop, tier)
+    try:
+        fn(sub, job)
+    except OutsideSubset as exc:
+        sub.undecided("%s.engine.subset.%s" % (prop, _short(job, 60)),
+                      "code left the modelled subset: %s" % exc)
+    except Exception as exc:
+        sub.errors.append("worker crashed on %r: %s" % (job, traceback.format_exc()[-1500:]))
+    return sub.export()
+
+
+def run_parallel(reg, fn, jobs, nproc=None):
+    """Run fn(subregistry, job) for every job in forked workers and merge."""
+    import multiprocessing as mp
+    nproc = nproc or max(1, min(len(jobs), (os.cpu_count() or 2) - 1))
+    if nproc == 1 or len(jobs) <= 1 or os.environ.get("VERIF_SERIAL"):
+        for j in jobs:
+            reg.absorb(_pool_worker((fn, j, reg.prop, reg.tier)))
+        return
+    ctx = mp.get_context("fork")
+    with ctx.Pool(nproc) as pool:
+        for exp in pool.imap_unordered(_pool_worker,
+                                       [(fn, j, reg.prop, reg.tier) for j in jobs], chunksize=1):
+            reg.absorb(exp)
